@@ -571,6 +571,31 @@ func bases() []baseDoc {
 			"root.json":  head(M{"/a/{id}": M{"post": M{"operationId": "a", "parameters": []any{R("other.json#/P")}, "requestBody": R("other.json#/B"), "responses": M{"200": R("other.json#/R")}}}}, nil),
 			"other.json": {"P": M{"name": "id", "in": "path", "required": true, "schema": R("#/S")}, "S": strS, "B": M{"content": M{"application/json": M{"schema": R("#/S")}}}, "R": M{"description": "ok", "headers": M{"X-A": R("#/H")}, "content": M{"application/json": M{"schema": R("#/S")}}}, "H": M{"schema": R("#/S")}}}}},
 	)
+	// root -> external -> back into a root component that itself refers on: the references written
+	// inside that root component belong to the root, whatever file led to it.  The external file holds
+	// different targets under the same pointers, so a wrong base yields a different API, not an error.
+	// (components are pre-parsed in sorted name order: the entry component sorts first)
+	leaf := M{"type": "string", "maxLength": 16}
+	out = append(out,
+		baseDoc{"back reference into a root schema that refers on locally (entry component sorts first)", doc{Root: "root.json", Files: map[string]M{
+			"root.json": head(M{"/a": M{"post": op("a", M{"requestBody": jb(R("#/components/schemas/Aentry"))})}},
+				M{"schemas": M{"Aentry": R("other.json#/components/schemas/S"), "Node": M{"type": "object", "properties": M{"leaf": R("#/components/schemas/Leaf"), "far": R("third.json#/T")}}, "Leaf": leaf}}),
+			"other.json": {"components": M{"schemas": M{"S": M{"type": "object", "properties": M{"n": R("root.json#/components/schemas/Node")}}, "Leaf": M{"type": "integer"}}}},
+			"third.json": {"T": M{"type": "boolean"}}}}},
+		baseDoc{"back reference into root header / parameter / response / requestBody components that refer on locally", doc{Root: "root.json", Files: map[string]M{
+			"root.json": head(M{"/a/{id}": M{"post": M{"operationId": "a", "parameters": []any{R("other.json#/components/parameters/P")}, "requestBody": R("other.json#/components/requestBodies/B"),
+				"responses": M{"200": R("other.json#/components/responses/R"), "201": M{"description": "x", "headers": M{"X-1": R("other.json#/components/headers/H")}}}}}},
+				M{"schemas": M{"Leaf": leaf},
+					"headers":       M{"RH": M{"required": true, "schema": R("#/components/schemas/Leaf")}},
+					"parameters":    M{"ZP": M{"name": "id", "in": "path", "required": true, "schema": R("#/components/schemas/Leaf")}},
+					"requestBodies": M{"ZB": M{"required": true, "content": M{"application/json": M{"schema": R("#/components/schemas/Leaf")}}}},
+					"responses":     M{"ZR": M{"description": "root", "headers": M{"X-H": R("#/components/headers/RH")}, "content": M{"application/json": M{"schema": R("#/components/schemas/Leaf")}}}}}),
+			"other.json": {"components": M{"schemas": M{"Leaf": M{"type": "integer"}},
+				"headers":       M{"H": R("root.json#/components/headers/RH"), "RH": M{"schema": M{"type": "boolean"}}},
+				"parameters":    M{"P": R("root.json#/components/parameters/ZP")},
+				"requestBodies": M{"B": R("root.json#/components/requestBodies/ZB")},
+				"responses":     M{"R": R("root.json#/components/responses/ZR")}}}}}},
+	)
 	// the same component names, with different content, in the root and in an external file whose
 	// own references are written in the usual local form: a local reference must be resolved in the
 	// file it is written in (a seeded change that looked names up in the root's components first
